@@ -62,6 +62,8 @@ SHORT = {"output": "out", "enqueue": "enq", "set_vlan_vid": "vid", "set_vlan_pcp
          "set_dl_src": "dls", "set_dl_dst": "dld", "set_nw_src": "nws", "set_nw_dst": "nwd", "set_nw_tos": "tos",
          "set_tp_src": "tps", "set_tp_dst": "tpd"}
 
+_SPECIAL_UDP = [53, 67, 68, 520, 4789, 5353]      # ports behind which pox.lib.packet dissects an application protocol
+
 _W = None
 
 
@@ -177,6 +179,8 @@ def dec_port_stats(body):
 # --------------------------------------------------------------------------- classification of inputs
 
 def frame_class(frame):
+  """(class, number of 802.1Q tags, dissection).  The class names the kind of frame and, where a kind is known to
+  hit a distinct code path of the packet library, that too (it is part of the root-cause key of byte mismatches)."""
   d = F.dissect(frame)
   tags = len(d.get("vlan", ()))
   et = d.get("ethertype")
@@ -187,8 +191,24 @@ def frame_class(frame):
   elif et == F.ETH_IP and "ipv4" in d:
     ip = d["ipv4"]
     k = {1: "icmp", 6: "tcp", 17: "udp"}.get(ip["proto"], "ip-other")
-    if ip["frag"] != 0 or ip["mf"]:
-      k += "-frag"
+    if ip["frag"] != 0:
+      k = "later-fragment"
+    elif ip["mf"]:
+      k = "first-fragment"
+    elif k == "icmp" and "icmp" in d and d["icmp"]["type"] in (3, 11):
+      k = "icmp-error"
+    elif k == "tcp" and "tcp" in d and d["tcp"]["options"]:
+      names = set(F12.tcp_option_name(kind) for off, kind, ln in F12.tcp_option_kinds(bytes(d["tcp"]["options"])))
+      for n in ("sack", "unknown", "eol"):
+        if n in names:
+          k = "tcp+" + n
+          break
+    elif k == "udp" and "udp" in d and (d["udp"]["sport"] in _SPECIAL_UDP or d["udp"]["dport"] in _SPECIAL_UDP):
+      k = "udp-app-port"
+  elif et == 0x88cc:
+    k = "lldp"
+  elif et == 0x888e:
+    k = "eapol"
   else:
     k = "other"
   return k, tags, d
@@ -261,6 +281,102 @@ def _explicit_targets(lists, in_port):
   return has_in_port, has_all, has_flood, phys
 
 
+def _structural(out, emitted, lists, in_port, port_state):
+  """Port guards that hold whatever the action list means.  True if one is broken."""
+  has_in_port, has_all, has_flood, phys = _explicit_targets(lists, in_port)
+  broken = False
+  for p, b in emitted:
+    if p not in port_state:
+      _vkey(out, "emit-on-missing-port", "frame emitted on port %d which does not exist" % p)
+      broken = True
+      continue
+    c, s = port_state[p]
+    if c & R.OFPPC_NO_FWD:
+      _vkey(out, "emit-on-blocked-port", "frame emitted on port %d which has NO_FWD" % p, why="NO_FWD")
+      broken = True
+    elif c & R.OFPPC_PORT_DOWN:
+      _vkey(out, "emit-on-blocked-port", "frame emitted on port %d which has PORT_DOWN" % p, why="PORT_DOWN")
+      broken = True
+    elif s & R.OFPPS_LINK_DOWN:
+      _vkey(out, "emit-on-blocked-port", "frame emitted on port %d whose link is down" % p, why="LINK_DOWN")
+      broken = True
+    if p == in_port and not has_in_port:
+      _vkey(out, "emit-on-ingress", "frame emitted on the ingress port %d without an OFPP_IN_PORT output (lists: %s)" % (
+          p, [[SHORT[a["a"]] + (":%x" % a["port"] if "port" in a else "") for a in l] for l in lists]),
+            via="flood" if has_flood and not has_all else ("all" if has_all else "physical"))
+      broken = True
+    if (c & R.OFPPC_NO_FLOOD) and not has_all and p not in phys and not (p == in_port and has_in_port):
+      _vkey(out, "flood-on-noflood-port", "frame emitted on port %d which has NO_FLOOD, and no output names it" % p)
+      broken = True
+  return broken
+
+
+def _emitting(a, in_port, port_state):
+  if a["a"] not in ("output", "enqueue"):
+    return False
+  x = R.expand_output(a["port"], in_port, port_state)
+  return (x[0] in ("ports", "flood") and bool(x[1])) or x[0] == "ctl"
+
+
+def _classify(out, res, lists, actions, in_port, port_state, ntags, mode, no_pktin):
+  """Class labels of one delivery; returns True when it meets the non-trivial rule."""
+  nontrivial = False
+  emit_idx = [i for i, a in enumerate(actions) if _emitting(a, in_port, port_state)]
+  if emit_idx:
+    first, last = emit_idx[0], emit_idx[-1]
+    if any(a["a"] in REWRITES for a in actions[:first]) and any(a["a"] in REWRITES for a in actions[first + 1:last]):
+      nontrivial = True
+      out.label("rewrite-output-rewrite-output")
+    tags = ntags
+    for a in actions[:last]:
+      if a["a"] in ("set_vlan_vid", "set_vlan_pcp") and tags == 0:
+        tags = 1
+        nontrivial = True
+        out.label("vlan-push-on-untagged")
+      elif a["a"] == "strip_vlan" and tags > 0:
+        tags -= 1
+    out.label("emits")
+  for l in lists:
+    for a in l:
+      if a["a"] not in ("output", "enqueue"):
+        continue
+      p = a["port"]
+      if p < R.OFPP_MAX:
+        targets = [p] if p != in_port else []
+        if p not in port_state:
+          out.label("output-to-missing-port")
+        elif p == in_port:
+          out.label("output-to-ingress-number")
+      else:
+        out.label("vport:%x" % p)
+        if p == R.OFPP_IN_PORT:
+          targets = [in_port]
+        elif p in (R.OFPP_FLOOD, R.OFPP_ALL):
+          targets = [q for q in port_state if q != in_port]
+        else:
+          targets = []
+      for q in targets:
+        if q not in port_state:
+          continue
+        c, s = port_state[q]
+        if not R.may_transmit(port_state, q):
+          nontrivial = True
+          out.label("blocked:" + ("NO_FWD" if c & R.OFPPC_NO_FWD else "PORT_DOWN" if c & R.OFPPC_PORT_DOWN else "LINK_DOWN"))
+        elif p == R.OFPP_FLOOD and (c & R.OFPPC_NO_FLOOD):
+          nontrivial = True
+          out.label("blocked:NO_FLOOD")
+  if any(e[0] == "ctl" for e in res.events):
+    out.label("controller-output")
+    if no_pktin:
+      out.label("controller-output-with-NO_PACKET_IN")
+  if mode == "miss":
+    out.label("table-miss")
+    if no_pktin:
+      nontrivial = True
+      out.label("miss-with-NO_PACKET_IN")
+  return nontrivial
+
+
 def _vkey(out, clause, msg, **kw):
   k = {"clause": clause}
   k.update(kw)
@@ -278,6 +394,8 @@ def _exc(out, e, clause, **extra):
     raise HarnessError("harness exception: %r" % (e,)) from e
   import traceback
   k = exc_key(e, clause=clause, **extra)
+  if isinstance(e, RecursionError):
+    k["where"] = "recursion"          # the innermost frame is wherever the limit happened to be hit
   for v in out.violations:
     if v["key"] == k:
       return
@@ -303,8 +421,7 @@ def _check_pktin(pi, frame, in_port, reason, want_len):
     return "in_port", "packet-in in_port %d, expected %d" % (pi["in_port"], in_port)
   data = pi["data"]
   if frame[:len(data)] != data or len(data) > len(frame):
-    return "data:" + str(F12.first_difference(frame[:len(data)], data[:len(frame)]) or "length"), \
-           "packet-in data is not a prefix of the frame as modified so far\n expected %s\n actual   %s" % (frame.hex(), data.hex())
+    return "data", "packet-in data is not a prefix of the frame as modified so far\n expected %s\n actual   %s" % (frame.hex(), data.hex())
   if pi["buffer_id"] == NO_BUFFER and len(data) != len(frame):
     return "unbuffered-truncated", "unbuffered packet-in carries %d of %d bytes" % (len(data), len(frame))
   if len(data) < min(want_len, len(frame)):
@@ -326,8 +443,8 @@ def _match(res, emitted, pktins, in_port, ctl_optional, miss_send_len, complete)
       if p != e[1]:
         return "emit-ports", {"kind": "wrong-port"}, "expected a frame on port %d, got one on port %d" % (e[1], p)
       if b != e[2]:
-        return "emit-bytes", {"field": F12.first_difference(e[2], b)}, \
-               "frame on port %d differs\n expected %s\n actual   %s" % (p, e[2].hex(), b.hex())
+        return "frame-bytes", {"field": F12.first_difference(e[2], b)}, \
+               "frame on port %d differs\n expected %s\n actual   %s" % (p, e[2].hex(), b.hex()), F12.byte_distance(e[2], b)
       i += 1
     elif e[0] == "flood":
       k = len(e[1])
@@ -337,8 +454,8 @@ def _match(res, emitted, pktins, in_port, ctl_optional, miss_send_len, complete)
             sorted(p for p, _ in e[1]), [p for p, _ in emitted[i:i + k + 1]])
       for (p, b) in chunk:
         if b != e[1][0][1]:
-          return "emit-bytes", {"field": F12.first_difference(e[1][0][1], b)}, \
-                 "flooded frame on port %d differs\n expected %s\n actual   %s" % (p, e[1][0][1].hex(), b.hex())
+          return "frame-bytes", {"field": F12.first_difference(e[1][0][1], b)}, \
+                 "flooded frame on port %d differs\n expected %s\n actual   %s" % (p, e[1][0][1].hex(), b.hex()), F12.byte_distance(e[1][0][1], b)
       i += k
     elif e[0] == "ctl":
       ctl_expected.append((e[1], OFPR_ACTION, e[2], True))
@@ -358,6 +475,9 @@ def _match(res, emitted, pktins, in_port, ctl_optional, miss_send_len, complete)
   for (frame, reason, want, _), pi in zip(ctl_expected, pktins):
     r = _check_pktin(pi, frame, in_port, reason, want)
     if r is not None:
+      if r[0] == "data":
+        n = len(pi["data"])
+        return "frame-bytes", {"field": F12.first_difference(frame[:n], pi["data"])}, r[1], F12.byte_distance(frame[:n], pi["data"])
       return "packet-in", {"field": r[0]}, r[1]
   return None
 
@@ -366,14 +486,16 @@ def run_case(case):
   out = Outcome()
   nports = case["nports"]
   sw = _Sw(nports)
+  nt = [False]
   try:
-    _run(case, sw, out)
+    _run(case, sw, out, nt)
   finally:
     sw.close()
+  out.nontrivial = nt[0]
   return out
 
 
-def _run(case, sw, out):
+def _run(case, sw, out, nt):
   nports = case["nports"]
   end = sw.end
   ports = end.sw.ports
@@ -381,7 +503,6 @@ def _run(case, sw, out):
   if sorted(ports) != sorted(state):
     raise HarnessError("switch has ports %r" % (sorted(ports),))
   end.take_sent()
-  nontrivial = False
 
   # ---- configuration
   for pm in case.get("portmods", ()):
@@ -394,7 +515,7 @@ def _run(case, sw, out):
     except HarnessError:
       raise
     except Exception as e:
-      _exc(out, e, "exception", op="port_mod")
+      _exc(out, e, "exception")
       return
     if p in state and pm.get("hw", True):
       state[p][0] = R.port_config_after(state[p][0], [(pm["config"] & KNOWN_BITS, pm["mask"] & KNOWN_BITS)])
@@ -420,7 +541,7 @@ def _run(case, sw, out):
     try:
       sw.send(enc_set_config(frag_mode, miss_send_len, sw.nx()))
     except Exception as e:
-      _exc(out, e, "exception", op="set_config")
+      _exc(out, e, "exception")
       return
     out.label("frag-mode-%d" % frag_mode)
   end.take_sent()
@@ -430,7 +551,6 @@ def _run(case, sw, out):
   rx_hi = {p: [0, 0] for p in state}
   tx = {p: [0, 0] for p in state}
   flow = None
-  judged_any = False
 
   for si, step in enumerate(case["steps"]):
     mode = step["mode"]
@@ -441,7 +561,7 @@ def _run(case, sw, out):
     if problems:
       raise HarnessError("generator produced an invalid input frame: %r %s" % (problems, frame.hex()))
     fclass, ntags, dis = frame_class(frame)
-    is_frag = fclass.endswith("-frag")
+    is_frag = fclass.endswith("-fragment")
     out.label("mode:" + mode, "frame:" + fclass, "tags:%d" % ntags)
     if frame[:6] == R.STP_MAC:
       out.label("stp-dst")
@@ -475,7 +595,7 @@ def _run(case, sw, out):
     except HarnessError:
       raise
     except Exception as e:
-      _exc(out, e, "exception", op=mode)
+      _exc(out, e, "exception")
       return
     emitted = end.take_emitted()
     msgs = split_messages(end.take_sent())
@@ -492,79 +612,55 @@ def _run(case, sw, out):
 
     # ---- what should have happened
     lists = _collect_action_lists(step, flow)
-    has_in_port, has_all, has_flood, phys = _explicit_targets(lists, in_port)
     ingress_exists = in_port in port_state
     icfg = port_state[in_port][0] if ingress_exists else 0
     ingress_down = ingress_exists and bool((icfg & R.OFPPC_PORT_DOWN) or (port_state[in_port][1] & R.OFPPS_LINK_DOWN))
+    no_pktin = bool(icfg & R.OFPPC_NO_PACKET_IN)
 
-    # structural guards: hold whatever the action list means
-    structural = False
-    for p, b in emitted:
-      if p not in port_state:
-        _vkey(out, "emit-on-missing-port", "frame emitted on port %d which does not exist" % p)
-        structural = True
-        continue
-      c, s = port_state[p]
-      if c & R.OFPPC_NO_FWD:
-        _vkey(out, "emit-on-blocked-port", "frame emitted on port %d which has NO_FWD" % p, why="NO_FWD")
-        structural = True
-      elif c & R.OFPPC_PORT_DOWN:
-        _vkey(out, "emit-on-blocked-port", "frame emitted on port %d which has PORT_DOWN" % p, why="PORT_DOWN")
-        structural = True
-      elif s & R.OFPPS_LINK_DOWN:
-        _vkey(out, "emit-on-blocked-port", "frame emitted on port %d whose link is down" % p, why="LINK_DOWN")
-        structural = True
-      if p == in_port and not has_in_port:
-        _vkey(out, "emit-on-ingress", "frame emitted on the ingress port %d without an OFPP_IN_PORT output (lists: %s)" % (
-            p, [[SHORT[a["a"]] + (":%x" % a["port"] if "port" in a else "") for a in l] for l in lists]),
-              via="flood" if has_flood and not has_all else ("all" if has_all else "physical"))
-        structural = True
-      if (c & R.OFPPC_NO_FLOOD) and not has_all and p not in phys and not (p == in_port and has_in_port):
-        _vkey(out, "flood-on-noflood-port", "frame emitted on port %d which has NO_FLOOD, and no output names it" % p)
-        structural = True
     for p, b in emitted:
       if p in tx:
         tx[p][0] += 1
         tx[p][1] += len(b)
+    if _structural(out, emitted, lists, in_port, port_state):
+      return
 
-    accepted = True
     table_lookup = None
     if mode != "packet_out":
-      if not ingress_exists:
-        accepted = False
-      else:
-        accepted = R.accepts(port_state, in_port, frame)
-      if not accepted:
+      if not ingress_exists or not R.accepts(port_state, in_port, frame):
         if ingress_exists:
-          nontrivial = True
+          nt[0] = True
           out.label("ingress-recv-disabled")
           rx_hi[in_port][0] += 1
           rx_hi[in_port][1] += len(frame)
+        else:
+          out.label("ingress-missing")
         if emitted or pktins:
           _vkey(out, "accepted-from-recv-disabled-port",
                 "frame with dst %s arriving on port %d (%s) was processed: %d frame(s) emitted, %d packet-in(s)" % (
                     F.mac_str(frame[:6]), in_port, _bits_name(icfg) if ingress_exists else "no such port", len(emitted), len(pktins)),
                 stp=frame[:6] == R.STP_MAC)
           return
+        if not _check_stats(out, sw, port_state, tx, rx_lo, rx_hi, fclass):
+          return
         continue
+      rx_hi[in_port][0] += 1
+      rx_hi[in_port][1] += len(frame)
       if frag_mode == 1 and is_frag:
         out.label("fragment-dropped")
-        rx_hi[in_port][0] += 1
-        rx_hi[in_port][1] += len(frame)
         if emitted or pktins:
           _vkey(out, "fragment-not-dropped", "OFPC_FRAG_DROP is set but a fragment was processed")
+          return
+        if not _check_stats(out, sw, port_state, tx, rx_lo, rx_hi, fclass):
           return
         continue
       if ingress_down and not emitted and not pktins:
         out.label("ingress-down-no-effect")
-        nontrivial = True
-        rx_hi[in_port][0] += 1
-        rx_hi[in_port][1] += len(frame)
+        nt[0] = True
+        if not _check_stats(out, sw, port_state, tx, rx_lo, rx_hi, fclass):
+          return
         continue
       if ingress_down:
         out.label("ingress-down-processed")
-      rx_hi[in_port][0] += 1
-      rx_hi[in_port][1] += len(frame)
       rx_lo[in_port][0] += 1
       rx_lo[in_port][1] += len(frame)
     else:
@@ -575,29 +671,26 @@ def _run(case, sw, out):
           return None
         return _flow["actions"]
 
-    if structural:
-      return
-
-    no_pktin = bool(icfg & R.OFPPC_NO_PACKET_IN)
     failures = []
     res0 = None
     for v in _variants(frame, lists):
+      f0 = frame
+      if v["udp_zero"] == "fill":
+        f0 = R.fill_udp_checksum(frame)        # a datapath may compute the checksum the sender left out
       if mode == "miss":
         res = R.Result()
-        if not no_pktin:
-          res.events.append(("miss", frame))
-        res.final = frame
+        res.events.append(("miss", f0))
+        res.final = f0
       else:
-        res = R.apply(frame, actions, in_port, port_state, from_flow=(mode == "flow"), table=table_lookup, **v)
+        res = R.apply(f0, actions, in_port, port_state, from_flow=(mode == "flow"), table=table_lookup, **v)
       if res0 is None:
         res0 = res
-      if res.table_lookups and ingress_exists:
-        ic = port_state[in_port][0]
-        if (ic & (R.OFPPC_NO_RECV | R.OFPPC_NO_RECV_STP)) or ingress_down or (frag_mode == 1 and is_frag):
-          res.ambiguous = "OFPP_TABLE lookup with a receive-restricted ingress port"
-          res.events = [e for e in res.events]   # keep what came before the lookup? not separable: judge nothing
-          res.events = []
-      if no_pktin and any(e[0] == "miss" for e in res.events):
+      if res.table_lookups and (not R.accepts(port_state, in_port, f0) or ingress_down or (frag_mode == 1 and is_frag)):
+        # POX (like the 1.0 reference switch) runs the lookup through its receive path; whether the
+        # ingress port's receive restrictions apply to a packet-out is not specified
+        res.ambiguous = "OFPP_TABLE lookup with a receive-restricted ingress port"
+        res.events = res.events[:res.first_lookup_event]
+      if no_pktin:
         res.events = [e for e in res.events if e[0] != "miss"]
       for e in res.physical():
         bad = F12.validate(e[1])
@@ -610,137 +703,76 @@ def _run(case, sw, out):
         break
       failures.append(m)
     res = res0
-    if res.table_lookups and ingress_exists:
-      rx_hi[in_port][0] += res.table_lookups
-      rx_hi[in_port][1] += res.table_lookups * 65535
+    if res.table_lookups:
       out.label("table-lookup")
+    n_table = sum(1 for l in lists for a in l if a["a"] == "output" and a["port"] == R.OFPP_TABLE)
+    if n_table and ingress_exists:
+      # a datapath may run OFPP_TABLE lookups through its receive path and count them as received
+      nested = any(a["a"] == "output" and a["port"] == R.OFPP_TABLE for l in lists[1:] for a in l) or mode == "flow"
+      k = 10 ** 6 if nested else n_table
+      rx_hi[in_port][0] += k
+      rx_hi[in_port][1] += k * 65535
     if res.ambiguous is not None:
       out.label("ambiguous:" + res.ambiguous.split(" on ")[0].split(" 0x")[0])
-    else:
-      judged_any = True
-
-    # ---- non-trivial rule and class labels (from the reference result)
-    seen_out = False
-    rewrites_before = rewrites_after_out = 0
-    pushed = False
-    cur_tagged = ntags > 0
-    emits = len(res.physical()) > 0
-    idx_last_emit = -1
-    f = frame
-    for ai, a in enumerate(actions):
-      if a["a"] in ("output", "enqueue"):
-        x = R.expand_output(a["port"], in_port, port_state)
-        if (x[0] in ("ports", "flood") and x[1]) or x[0] == "ctl":
-          idx_last_emit = ai
-    before = after_first = False
-    first_emit = None
-    for ai, a in enumerate(actions):
-      if a["a"] in ("output", "enqueue"):
-        x = R.expand_output(a["port"], in_port, port_state)
-        if (x[0] in ("ports", "flood") and x[1]) or x[0] == "ctl":
-          if first_emit is None:
-            first_emit = ai
-    if first_emit is not None:
-      before = any(a["a"] in REWRITES for a in actions[:first_emit])
-      after_first = any(a["a"] in REWRITES for a in actions[first_emit + 1:idx_last_emit + 1])
-      if before and after_first:
-        nontrivial = True
-        out.label("rewrite-output-rewrite-output")
-      for ai, a in enumerate(actions[:idx_last_emit]):
-        if a["a"] in ("set_vlan_vid", "set_vlan_pcp") and not cur_tagged:
-          pushed = True
-          cur_tagged = True
-        elif a["a"] == "strip_vlan":
-          cur_tagged = False if ntags <= 1 else cur_tagged
-      if pushed:
-        nontrivial = True
-        out.label("vlan-push-on-untagged")
-    blocked = False
-    for l in lists:
-      for a in l:
-        if a["a"] in ("output", "enqueue"):
-          p = a["port"]
-          targets = []
-          if p < R.OFPP_MAX:
-            targets = [p]
-          elif p == R.OFPP_IN_PORT:
-            targets = [in_port]
-          elif p in (R.OFPP_FLOOD, R.OFPP_ALL):
-            targets = [q for q in port_state if q != in_port]
-          for q in targets:
-            if q in port_state and q != in_port or (p == R.OFPP_IN_PORT and q in port_state):
-              c, s = port_state[q]
-              if not R.may_transmit(port_state, q):
-                blocked = True
-                out.label("blocked:" + ("NO_FWD" if c & R.OFPPC_NO_FWD else "PORT_DOWN" if c & R.OFPPC_PORT_DOWN else "LINK_DOWN"))
-              elif p == R.OFPP_FLOOD and (c & R.OFPPC_NO_FLOOD):
-                blocked = True
-                out.label("blocked:NO_FLOOD")
-          if p >= R.OFPP_MAX:
-            out.label("vport:%x" % p)
-          elif p not in port_state:
-            out.label("output-to-missing-port")
-          elif p == in_port:
-            out.label("output-to-ingress-number")
-    if blocked:
-      nontrivial = True
-    if any(e[0] == "ctl" for e in res.events):
-      out.label("controller-output")
-      if no_pktin:
-        out.label("controller-output-with-NO_PACKET_IN")
-    if mode == "miss" and no_pktin:
-      nontrivial = True
-      out.label("miss-with-NO_PACKET_IN")
-    if emits:
-      out.label("emits")
+    if _classify(out, res, lists, actions, in_port, port_state, ntags, mode, no_pktin):
+      nt[0] = True
 
     if failures:
-      clause, disc, msg = failures[0]
+      # several readings were tried: report against the one the switch came closest to
+      failures.sort(key=lambda m: (m[0] != "frame-bytes", m[3] if len(m) > 3 else 0))
+      clause, disc, msg = failures[0][:3]
       disc = dict(disc)
-      if clause == "emit-bytes":
-        disc["frame"] = fclass
+      disc["frame"] = fclass
       _vkey(out, clause, "step %d (%s, in_port %s, frame %s, actions %s):\n%s" % (
           si, mode, in_port, fclass, [SHORT[a["a"]] for a in actions], msg), **disc)
       return
+    if not _check_stats(out, sw, port_state, tx, rx_lo, rx_hi, fclass):
+      return
 
-  out.nontrivial = nontrivial
   if out.violations:
     return
+  sp = case.get("stats_port")
+  if sp is not None and sp in port_state:
+    _check_stats(out, sw, port_state, tx, rx_lo, rx_hi, "-", single=sp)
+  if any(v[0] for v in tx.values()) or any(v[0] for v in rx_lo.values()):
+    out.label("stats-nonzero")
 
-  # ---- port statistics
+
+def _check_stats(out, sw, port_state, tx, rx_lo, rx_hi, fclass, single=None):
+  """Ask for port statistics (all ports, or one) and compare with what was really emitted / accepted."""
+  end = sw.end
+  end.take_sent()
   try:
-    sw.send(enc_port_stats_request(R.OFPP_NONE, sw.nx()))
-    sp = case.get("stats_port")
-    if sp is not None and sp in port_state:
-      sw.send(enc_port_stats_request(sp, sw.nx()))
+    sw.send(enc_port_stats_request(R.OFPP_NONE if single is None else single, sw.nx()))
   except HarnessError:
     raise
   except Exception as e:
-    _exc(out, e, "exception", op="port_stats")
-    return
+    _exc(out, e, "exception")
+    return False
   replies = [dec_port_stats(body) for t, xid, body in split_messages(end.take_sent()) if t == OFPT_STATS_REPLY]
-  want_replies = 2 if (case.get("stats_port") is not None and case.get("stats_port") in port_state) else 1
-  if len(replies) != want_replies or any(r is None for r in replies):
-    _vkey(out, "port-stats", "expected %d well-formed port stats replies, got %r" % (want_replies, replies), field="reply")
-    return
-  if sorted(replies[0]) != sorted(port_state):
-    _vkey(out, "port-stats", "stats reply for OFPP_NONE lists ports %r" % (sorted(replies[0]),), field="ports")
-    return
-  if want_replies == 2 and (list(replies[1]) != [case["stats_port"]] or replies[1][case["stats_port"]] != replies[0][case["stats_port"]]):
-    _vkey(out, "port-stats", "single-port stats reply %r disagrees with the all-ports reply %r" % (replies[1], replies[0]), field="single")
-    return
-  for p in sorted(port_state):
+  if len(replies) != 1 or replies[0] is None:
+    _vkey(out, "port-stats", "expected one well-formed port stats reply, got %r" % (replies,), field="reply")
+    return False
+  want = sorted(port_state) if single is None else [single]
+  if sorted(replies[0]) != want:
+    _vkey(out, "port-stats", "stats reply lists ports %r, expected %r" % (sorted(replies[0]), want), field="ports")
+    return False
+  ok = True
+  for p in want:
     rxp, txp, rxb, txb = replies[0][p]
+    bad = None
     if txp != tx[p][0]:
-      _vkey(out, "port-stats", "port %d (%s): tx_packets %d but %d frame(s) were emitted" % (p, _bits_name(port_state[p][0]), txp, tx[p][0]), field="tx_packets")
+      bad = ("tx_packets", "port %d (%s): tx_packets %d but %d frame(s) were emitted" % (p, _bits_name(port_state[p][0]), txp, tx[p][0]))
     elif txb != tx[p][1]:
-      _vkey(out, "port-stats", "port %d: tx_bytes %d but %d byte(s) were emitted" % (p, txb, tx[p][1]), field="tx_bytes")
-    if not (rx_lo[p][0] <= rxp <= rx_hi[p][0]):
-      _vkey(out, "port-stats", "port %d: rx_packets %d, expected %d..%d" % (p, rxp, rx_lo[p][0], rx_hi[p][0]), field="rx_packets")
+      bad = ("tx_bytes", "port %d: tx_bytes %d but %d byte(s) were emitted" % (p, txb, tx[p][1]))
+    elif not (rx_lo[p][0] <= rxp <= rx_hi[p][0]):
+      bad = ("rx_packets", "port %d (%s): rx_packets %d, expected %d..%d" % (p, _bits_name(port_state[p][0]), rxp, rx_lo[p][0], rx_hi[p][0]))
     elif not (rx_lo[p][1] <= rxb <= rx_hi[p][1]):
-      _vkey(out, "port-stats", "port %d: rx_bytes %d, expected %d..%d" % (p, rxb, rx_lo[p][1], rx_hi[p][1]), field="rx_bytes")
-  if any(v[0] for v in tx.values()) or any(v[0] for v in rx_lo.values()):
-    out.label("stats-nonzero")
+      bad = ("rx_bytes", "port %d: rx_bytes %d, expected %d..%d" % (p, rxb, rx_lo[p][1], rx_hi[p][1]))
+    if bad:
+      _vkey(out, "port-stats", bad[1], field=bad[0], frame=fclass)
+      ok = False
+  return ok
 
 
 # --------------------------------------------------------------------------- generators
@@ -750,7 +782,6 @@ _U32 = st.one_of(st.sampled_from([0, 1, 0x7fffffff, 0x80000000, 0xfffffffe, 0xff
                  st.integers(0, 0xffffffff))
 _MAC = st.one_of(st.sampled_from([bytes(6), b"\xff" * 6, R.STP_MAC, bytes.fromhex("0180c200000e"), bytes.fromhex("020000000001")]),
                  st.binary(min_size=6, max_size=6))
-_SPECIAL_UDP = [53, 67, 68, 520, 4789, 5353]
 
 
 @st.composite
@@ -808,7 +839,7 @@ def _ipv4_packet(draw, proto_kind):
   mf = False
   fragoff = 0
   if frag == 0:
-    mf = True                                   # first fragment
+    mf = True                                   # first fragment: built whole below, then cut
   elif frag == 1:
     fragoff = draw(st.sampled_from([1, 2, 185, 0x1fff]))
     mf = draw(st.booleans())
@@ -843,10 +874,19 @@ def _ipv4_packet(draw, proto_kind):
       seg = F.build_icmp(draw(st.sampled_from([5, 13, 17, 40, 255])), draw(st.integers(0, 255)), payload=draw(_payload()),
                          rest=draw(st.binary(min_size=4, max_size=4)))
   else:
-    proto = draw(st.sampled_from([2, 47, 50, 89, 132, 253]))
+    proto = draw(st.sampled_from([50, 51, 89, 132, 253]))   # protocols the datapath does not dissect
     seg = draw(_payload())
-  if not whole and fragoff != 0:
+  if fragoff != 0:
     seg = draw(_payload())                      # a later fragment carries no transport header
+    if mf:
+      seg = (seg + bytes(8))[:max(8, len(seg) // 8 * 8)]
+  elif mf:
+    # first fragment of a longer datagram: lengths and checksum inside it describe the whole datagram
+    seg = seg + draw(st.binary(min_size=8, max_size=24))
+    if proto == 17:
+      seg = F.build_udp(src, dst, int.from_bytes(seg[0:2], "big"), int.from_bytes(seg[2:4], "big"), seg[8:])
+    keep = draw(st.integers(1, max(1, (len(seg) - 1) // 8))) * 8
+    seg = seg[:keep]
   return F.build_ipv4(src, dst, proto, seg, tos=tos, ident=ident, df=df and whole, mf=mf, frag=fragoff, ttl=ttl, options=options)
 
 
@@ -874,17 +914,27 @@ def frame_strategy(draw):
   if k <= 16:
     arp = F.build_arp(draw(st.sampled_from([1, 2, 3, 4])), draw(_MAC), draw(_U32), draw(_MAC), draw(_U32))
     return F.build_eth(dst, src, draw(st.sampled_from([F.ETH_ARP, F.ETH_ARP, 0x8035])), arp, vlan=vlan)
-  o = draw(st.integers(0, 5))
+  o = draw(st.integers(0, 6))
   body = draw(_payload(odd_rate=2))
   if o == 0:
     return F.build_8023(dst, src, body, dsap=draw(st.sampled_from([0x42, 0xe0, 0xfe])), ssap=0x42, vlan=vlan)
   if o == 1:
     return F.build_8023(dst, src, body, snap=(draw(st.sampled_from([bytes(3), b"\x00\x00\x0c"])), draw(st.sampled_from([0x0800, 0x2000, 0x0806]))), vlan=vlan)
   if o == 2:
-    return F.build_eth(dst, src, 0x86dd, body, vlan=vlan)
+    # a well-formed LLDPDU: chassis id, port id, ttl, (system name), end
+    def tlv(t, v):
+      return struct.pack("!H", (t << 9) | len(v)) + v
+    pdu = tlv(1, b"\x04" + draw(_MAC)) + tlv(2, b"\x02" + draw(st.binary(min_size=1, max_size=4))) + tlv(3, struct.pack("!H", draw(_U16)))
+    if draw(st.booleans()):
+      pdu += tlv(5, draw(st.binary(min_size=1, max_size=8)))
+    pdu += tlv(0, b"")
+    return F.build_eth(draw(st.sampled_from([bytes.fromhex("0180c200000e"), dst])), src, 0x88cc, pdu, vlan=vlan)
   if o == 3:
-    return F.build_eth(dst, src, draw(st.sampled_from([0x88cc, 0x888e, 0x8847, 0x9100, 0x88a8])), body, vlan=vlan)
-  return F.build_eth(dst, src, draw(st.sampled_from([0x0600, 0x0801, 0x1234, 0xffff, 0x8808])), body, vlan=vlan)
+    # EAPOL-Start / Logoff: no body
+    return F.build_eth(bytes.fromhex("0180c2000003"), src, 0x888e, struct.pack("!BBH", 1, draw(st.sampled_from([1, 2])), 0), vlan=vlan)
+  if o == 4:
+    return F.build_eth(dst, src, draw(st.sampled_from([0x88a8, 0x9100, 0x8808, 0x88f7])), body, vlan=vlan)
+  return F.build_eth(dst, src, draw(st.sampled_from([0x0600, 0x0801, 0x1234, 0xffff, 0x22f3])), body, vlan=vlan)
 
 
 def _phys_port(nports):
